@@ -118,6 +118,13 @@ CHECKS['C16'] = dict(
     design_ref='DESIGN.md section 3 C16',
     note='dict backend / asyncio subsystem; deviation bound 2 (3 for short single-writer bursts in thorough); the maildir 1 s poll loop is not explored by this check',
     technique='stateless deviation-bounded model checking of the implementation under a controlled event loop (iterative context bounding over environment answers)')
+CHECKS['C08'] = dict(
+    engine='E8 enumeration + E6 filesystem jail (vf/fsjail.py, vf/checks/c08.py)',
+    category='exploration',
+    text='Every /-joined mailbox name of <= 2 (thorough 3: ~2 400 names) components from a 13-component alphabet (empty, ., .., a, INBOX, a.b, .a, NUL, non-ASCII, 300 characters, the other user\'s name, cur, ~) plus 22 special names (~, /etc, ../bob, ../../x, ..bob, ../bob/Keep, ../pymap-etc-passwd, backslash forms, ...) is sent, as a literal, in each of 15 mailbox-taking positions (CREATE, DELETE, RENAME source and destination, SELECT followed by FETCH/STORE/EXPUNGE/CLOSE, EXAMINE, STATUS, APPEND, COPY and MOVE destination, SUBSCRIBE, UNSUBSCRIBE, LIST/LSUB reference and pattern with wildcards appended, CREATE-then-DELETE) on the maildir backend with the ++ and fs layouts and on the dict backend, each execution on a fresh copy of a two-user store. On maildir the whole run is inside an os-level jail that logs every os.*/open/shutil call with realpath-resolved arguments and refuses (and records) any mutation outside the scratch root. Oracle: every path touched between the acting user\'s LOGIN and the end resolves strictly inside that user\'s directory (sanctioned exceptions: read-only access to the credential files, tempfile\'s own files in the assigned temp directory, stat of ancestor directories); no rmdir/rename/remove has the user directory itself as subject; the jail refused nothing; the other user\'s tree and the credential files are byte-identical before and after; on every backend the other user\'s LIST/STATUS view is unchanged; the two-user set-up itself must not interfere.',
+    design_ref='DESIGN.md section 3 C08',
+    note='maildir backend built with the asyncio subsystem; the jail only sees calls made through os / builtins.open / shutil.rmtree in the harness process',
+    technique='bounded-exhaustive enumeration of hostile names x argument positions on the implementation under a filesystem-call jail')
 NA = {}
 
 def main():
